@@ -9,6 +9,11 @@ Cases == {[kind |-> k, shape |-> "chain", n |-> n] : k \in Kinds, n \in 1..3}
          \cup {[kind |-> "schema", shape |-> "diamond", n |-> n] : n \in 1..2}
          \* one of two referrers of a schema writes a keyword beside its $ref (n: 1 default, 2 enum)
          \cup {[kind |-> "schema", shape |-> "sibling", n |-> n] : n \in 1..2}
+         \* a lookup that is allowed to fail: the mapping of a discriminator in a second file names
+         \* its variants by file name (first tried as a component name there), and a local reference
+         \* of the root document is resolved afterwards in the same context (n: 1 request before
+         \* response, 2 a webhook-free document with the local reference in a later operation)
+         \cup {[kind |-> "schema", shape |-> "mapping", n |-> n] : n \in 1..2}
 ASSUME ndJsonSerialize(IOEnv.VERIF_VECTORS, SetToSeq(Cases))
 VARIABLE x
 Init == x = 0
